@@ -73,6 +73,13 @@ func c08Matrix(r *R, prop string) {
 	if r.Failed() {
 		return
 	}
+	if cell.dec == 5 && r.Chance(25) {
+		// "unexpected decision values are treated as escalate" (doc of vivid.SupervisionDecision): the zero value a decision
+		// maker returns by accident, or a value past the last constant, must behave exactly like Escalate
+		D = []vivid.SupervisionDecision{0, 7, -1}[r.Choose(3)]
+		r.Count("out-of-range-decision-value")
+		r.Note("the deciding supervisor answers with the out-of-range decision value %d (documented: treated as escalate)", D)
+	}
 	sysI := actor.VsimSystem(w.Sys)
 	mkStrategy := func(m *Maker) vivid.SupervisionStrategy {
 		if cell.strat == 1 {
@@ -282,6 +289,9 @@ func c08Matrix(r *R, prop string) {
 
 	// ---- expectations ----
 	effective := D
+	if !D.IsValid() {
+		effective = vivid.SupervisionDecisionEscalate
+	}
 	decider := "/sup" // the supervisor whose children are the targets
 	childOfDecider := F
 	if cell.tree == 3 || cell.tree == 4 {
